@@ -415,7 +415,8 @@ def main(argv=None):
 
             def submit():
                 nonlocal next_idx
-                while len(pending) < a.workers * 2 and next_idx < end_idx and time.time() < deadline:
+                nworkers = min(a.workers, getattr(mod, "MAX_WORKERS", a.workers))
+                while len(pending) < nworkers + 2 and next_idx < end_idx and time.time() < deadline:
                     hi = min(end_idx, next_idx + chunk)
                     items = [(i, seeds(i)) for i in range(next_idx, hi)]
                     next_idx = hi
